@@ -10,64 +10,79 @@
    cancelled  the Run context has been cancelled
    ctxOf    h :> "run" | "fresh": the context h's subscription was made with (the Run context or
             another one handed to RunHandlers); cancelling the Run context ends exactly the former
+   plugins  sequence of [id, ok] registered with AddPlugin;  pran: how many of them Run has executed
    ending   the router has a reason to close itself: at least one handler was added and every
             added handler has ended (stopped, or subscribed with the cancelled Run context)       *)
 EXTENDS Naturals, Sequences, FiniteSets, TLC
 
-VARIABLES added, subs, atRun, runs, runRet, started, stopReq, stopped, ending, rhPend, closedSeen, cancelled, ctxOf
-lvars == <<added, subs, atRun, runs, runRet, started, stopReq, stopped, ending, rhPend, closedSeen, cancelled, ctxOf>>
+VARIABLES added, subs, atRun, runs, runRet, started, stopReq, stopped, ending, rhPend, closedSeen, cancelled, ctxOf, plugins, pran
+lvars == <<added, subs, atRun, runs, runRet, started, stopReq, stopped, ending, rhPend, closedSeen, cancelled, ctxOf, plugins, pran>>
 
 Upd(f, k, v) == (k :> v) @@ f
 LInit0 == /\ added = << >> /\ subs = << >> /\ atRun = {} /\ runs = 0 /\ runRet = FALSE /\ started = {} /\ stopReq = {}
-          /\ stopped = {} /\ ending = FALSE /\ rhPend = << >> /\ closedSeen = FALSE /\ cancelled = FALSE /\ ctxOf = << >>
+          /\ stopped = {} /\ ending = FALSE /\ rhPend = << >> /\ closedSeen = FALSE /\ cancelled = FALSE /\ ctxOf = << >> /\ plugins = << >> /\ pran = 0
 
 \* handlers that have (a reason to have) ended, and whether that leaves the router without work
 Ended(sr, canc, cx) == sr \cup {h \in DOMAIN cx : canc /\ cx[h] = "run"}
 AllEnded(sr, canc, cx) == DOMAIN added # {} /\ DOMAIN added \subseteq Ended(sr, canc, cx)
 
 AddHandler(h, p) == /\ h \notin DOMAIN added /\ added' = Upd(added, h, p) /\ subs' = Upd(subs, h, 0)
-                    /\ UNCHANGED <<atRun, runs, runRet, started, stopReq, stopped, ending, rhPend, closedSeen, cancelled, ctxOf>>
+                    /\ UNCHANGED <<atRun, runs, runRet, started, stopReq, stopped, ending, rhPend, closedSeen, cancelled, ctxOf, plugins, pran>>
 \* each handler subscribes exactly once, however often RunHandlers is called
+PluginsDone == pran = Len(plugins) /\ \A i \in 1..Len(plugins) : plugins[i].ok
+\* plugins run once, in registration order, when Run starts and before any handler subscribes; the first failing one aborts Run
+AddPlugin(i, ok) == /\ runs = 0 /\ plugins' = Append(plugins, [id |-> i, ok |-> ok])
+                    /\ UNCHANGED <<added, subs, atRun, runs, runRet, started, stopReq, stopped, ending, rhPend, closedSeen, cancelled, ctxOf, pran>>
+PluginRan(i) == /\ runs >= 1 /\ pran < Len(plugins) /\ plugins[pran + 1].id = i
+                /\ \A k \in 1..pran : plugins[k].ok
+                /\ \A h \in DOMAIN subs : subs[h] = 0
+                /\ pran' = pran + 1
+                /\ UNCHANGED <<added, subs, atRun, runs, runRet, started, stopReq, stopped, ending, rhPend, closedSeen, cancelled, ctxOf, plugins>>
+\* a second AddHandler with the name of a live handler panics (DuplicateHandlerNameError) and changes nothing
+AddDuplicate(h, panicked) == h \in DOMAIN added /\ h \notin stopped /\ panicked /\ UNCHANGED lvars
 Subscribed(h, k) == /\ h \in DOMAIN added /\ subs[h] = 0 /\ subs' = [subs EXCEPT ![h] = 1]
+                    /\ PluginsDone
                     /\ ctxOf' = Upd(ctxOf, h, k)
                     /\ ending' = (ending \/ AllEnded(stopReq, cancelled, Upd(ctxOf, h, k)))
-                    /\ UNCHANGED <<added, atRun, runs, runRet, started, stopReq, stopped, rhPend, closedSeen, cancelled>>
+                    /\ UNCHANGED <<added, atRun, runs, runRet, started, stopReq, stopped, rhPend, closedSeen, cancelled, plugins, pran>>
 RunCall == /\ runs' = runs + 1 /\ atRun' = IF runs = 0 THEN DOMAIN added ELSE atRun
-           /\ UNCHANGED <<added, subs, runRet, started, stopReq, stopped, ending, rhPend, closedSeen, cancelled, ctxOf>>
+           /\ UNCHANGED <<added, subs, runRet, started, stopReq, stopped, ending, rhPend, closedSeen, cancelled, ctxOf, plugins, pran>>
 \* Running() is closed only after every handler registered before Run holds its subscription
 RunningSeen == /\ runs >= 1 /\ \A h \in atRun : subs[h] = 1
                /\ UNCHANGED lvars
 \* a second Run returns an error; the first returns nil, and only once the router has a reason to end
-RunRetFirst(ok) == /\ runs >= 1 /\ ~runRet /\ ok /\ ending /\ runRet' = TRUE
-                   /\ UNCHANGED <<added, subs, atRun, runs, started, stopReq, stopped, ending, rhPend, closedSeen, cancelled, ctxOf>>
+RunRetFirst(ok) == /\ runs >= 1 /\ ~runRet /\ runRet' = TRUE
+                   /\ IF ok THEN ending /\ PluginsDone
+                            ELSE pran >= 1 /\ ~plugins[pran].ok          \* the error of the failing plugin
+                   /\ UNCHANGED <<added, subs, atRun, runs, started, stopReq, stopped, ending, rhPend, closedSeen, cancelled, ctxOf, plugins, pran>>
 RunRetSecond(ok) == /\ runs >= 2 /\ ~ok /\ UNCHANGED lvars
 \* RunHandlers: when it returns, every handler registered before the call holds its subscription
 RHCall(i) == /\ rhPend' = Upd(rhPend, i, DOMAIN added)
-             /\ UNCHANGED <<added, subs, atRun, runs, runRet, started, stopReq, stopped, ending, closedSeen, cancelled, ctxOf>>
+             /\ UNCHANGED <<added, subs, atRun, runs, runRet, started, stopReq, stopped, ending, closedSeen, cancelled, ctxOf, plugins, pran>>
 RHRet(i, ok) == /\ i \in DOMAIN rhPend
                 /\ ok => \A h \in rhPend[i] : subs[h] = 1
                 /\ ~ok => (runs = 0 \/ ending)
                 /\ rhPend' = [x \in DOMAIN rhPend \ {i} |-> rhPend[x]]
-                /\ UNCHANGED <<added, subs, atRun, runs, runRet, started, stopReq, stopped, ending, closedSeen, cancelled, ctxOf>>
+                /\ UNCHANGED <<added, subs, atRun, runs, runRet, started, stopReq, stopped, ending, closedSeen, cancelled, ctxOf, plugins, pran>>
 StartedSeen(h) == /\ h \in DOMAIN added /\ subs[h] = 1 /\ started' = started \cup {h}
-                  /\ UNCHANGED <<added, subs, atRun, runs, runRet, stopReq, stopped, ending, rhPend, closedSeen, cancelled, ctxOf>>
+                  /\ UNCHANGED <<added, subs, atRun, runs, runRet, stopReq, stopped, ending, rhPend, closedSeen, cancelled, ctxOf, plugins, pran>>
 \* once Started() is closed Stop() is usable (a panic or a nil Stopped() channel matches no action)
 StopCall(h) == /\ h \in started /\ stopReq' = stopReq \cup {h}
                /\ ending' = (ending \/ AllEnded(stopReq \cup {h}, cancelled, ctxOf))
-               /\ UNCHANGED <<added, subs, atRun, runs, runRet, started, stopped, rhPend, closedSeen, cancelled, ctxOf>>
+               /\ UNCHANGED <<added, subs, atRun, runs, runRet, started, stopped, rhPend, closedSeen, cancelled, ctxOf, plugins, pran>>
 StoppedSeen(h) == /\ h \in Ended(stopReq, cancelled, ctxOf) \/ ending
                   /\ stopped' = stopped \cup {h}
-                  /\ UNCHANGED <<added, subs, atRun, runs, runRet, started, stopReq, ending, rhPend, closedSeen, cancelled, ctxOf>>
+                  /\ UNCHANGED <<added, subs, atRun, runs, runRet, started, stopReq, ending, rhPend, closedSeen, cancelled, ctxOf, plugins, pran>>
 \* a message sent to handler h: it must be handled unless h (or a handler sharing its publisher) was stopped or the router is ending
 Probe(h, ok) == /\ h \in DOMAIN added /\ subs[h] = 1
                 /\ (~ending /\ h \notin Ended(stopReq, cancelled, ctxOf) /\ \A g \in stopReq : added[g] # added[h]) => ok
                 /\ UNCHANGED lvars
 \* cancelling the Run context ends the handlers subscribed with it; a router that has no handler yet keeps running
 CancelRun == /\ cancelled' = TRUE /\ ending' = (ending \/ AllEnded(stopReq, TRUE, ctxOf))
-             /\ UNCHANGED <<added, subs, atRun, runs, runRet, started, stopReq, stopped, rhPend, closedSeen, ctxOf>>
+             /\ UNCHANGED <<added, subs, atRun, runs, runRet, started, stopReq, stopped, rhPend, closedSeen, ctxOf, plugins, pran>>
 \* Close called by the user: every handler ends, Run returns nil
-CloseCall == ending' = TRUE /\ UNCHANGED <<added, subs, atRun, runs, runRet, started, stopReq, stopped, rhPend, closedSeen, cancelled, ctxOf>>
-ClosedSeen == ending /\ closedSeen' = TRUE /\ UNCHANGED <<added, subs, atRun, runs, runRet, started, stopReq, stopped, ending, rhPend, cancelled, ctxOf>>
+CloseCall == ending' = TRUE /\ UNCHANGED <<added, subs, atRun, runs, runRet, started, stopReq, stopped, rhPend, closedSeen, cancelled, ctxOf, plugins, pran>>
+ClosedSeen == ending /\ closedSeen' = TRUE /\ UNCHANGED <<added, subs, atRun, runs, runRet, started, stopReq, stopped, ending, rhPend, cancelled, ctxOf, plugins, pran>>
 \* when the last handler ended or the Run context was cancelled the router closed itself and Run returned nil
 \* ... and the Stopped() channel of every started handler is closed once the router has ended (unstopped = those that are not)
 QuiescentL(unstopped) ==
